@@ -1,4 +1,4 @@
-import BreezyVerif.Lemmas.C31B
+import BreezyVerif.Lemmas.C31D
 /-
 C31 — smart server clients cannot reach files outside the served directory.
 
@@ -208,6 +208,90 @@ example : ∀ p, Canon p →
 example : expandUserdirs (expanduser [([], [47, 115, 47, 104])]) [47, 115, 47] [126, 47, 120]
     = [104, 47, 120, 47] := by decide
 
+
+/-! ### home directories that are not canonical escaped strings
+
+`_expand_userdirs` hands the part of the expanded OS path below the base path to
+the chroot as if it were a URL path (it is not escaped).  Containment survives
+for every home directory in which each "%" starts an upper-case escape of a byte
+outside `A-Za-z0-9-._~/` (`isMild`; in particular every home directory without a
+"%" — spaces, non-ASCII bytes, ... are fine), and fails otherwise. -/
+
+/-- `_expand_userdirs` over posix `expanduser` maps mild paths to mild paths
+when every home directory of the table is mild -/
+theorem userdir_filter_mild (tbl : List (Bytes × Bytes))
+    (ht : ∀ e ∈ tbl, isMild (rstripSl e.2) = true) (base p : Bytes) (hp : Mild p) :
+    Mild (expandUserdirs (expanduser tbl) base p) :=
+  expandUserdirs_mild (fun _ hq => expanduser_mild (fun e he => mild_of_isMild _ (ht e he)) hq) base hp
+
+/-- **containment behind the userdir filter for arbitrary mild home directories**:
+with `_expand_userdirs` over `expanduser` installed, every operation with a
+canonical relpath on a transport cloned at canonical segments lands inside the
+served directory — for every user table whose home directories are mild, every
+base path and every served directory -/
+theorem userdir_locate_inside (rootDir : List Seg) (base : Bytes) (tbl : List (Bytes × Bytes))
+    (cloneStk : List Seg) (rel : Bytes) (loc : List Seg)
+    (ht : ∀ e ∈ tbl, isMild (rstripSl e.2) = true)
+    (hs : ∀ s ∈ cloneStk, GoodSeg Canon s) (hr : Canon rel)
+    (h : locate { rootDir := rootDir, basePath := some base,
+                  filter := expandUserdirs (expanduser tbl) base } cloneStk rel = .ok loc) :
+    inside rootDir loc :=
+  locate_inside tame_mild _ cloneStk rel loc
+    (fun p hp => userdir_filter_mild tbl ht base p hp)
+    (fun s h' => goodSeg_mild_of_canon (hs s h')) (mild_of_canon hr) h
+
+/-- the same for a whole request: any client path, any root client path, VFS
+(`vfs = true`, unescape first) or non-VFS translation -/
+theorem translate_userdir_inside (rootDir : List Seg) (base : Bytes) (tbl : List (Bytes × Bytes))
+    (vfs : Bool) (root cp r rel : Bytes) (loc : List Seg)
+    (ht : ∀ e ∈ tbl, isMild (rstripSl e.2) = true)
+    (htr : (if vfs then vfsTranslate true root cp else translate root cp) = .ok r) (hrel : Canon rel)
+    (h : locate { rootDir := rootDir, basePath := some base,
+                  filter := expandUserdirs (expanduser tbl) base } (combine [] r) rel = .ok loc) :
+    inside rootDir loc := by
+  have hc : Canon r := by
+    cases vfs with
+    | false => exact translate_canon root cp r (by simpa using htr)
+    | true =>
+      simp only [if_true] at htr
+      unfold vfsTranslate at htr
+      simp only [if_true] at htr
+      split at htr
+      · cases htr
+      · cases hu : unescape cp with
+        | error e => rw [hu] at htr; cases htr
+        | ok u => rw [hu] at htr; exact translate_canon root u r htr
+  exact userdir_locate_inside rootDir base tbl (combine [] r) rel loc ht
+    (combine_good tame_canon (by simp) hc) hrel h
+
+/-- non-vacuity: a home directory with a space (not a canonical escaped string) is mild -/
+example : ∀ e ∈ [(([] : Bytes), ([47, 115, 114, 118, 47, 114, 111, 111, 116, 47, 104, 111, 109, 101, 47, 109, 121, 32, 117, 115, 101, 114] : Bytes))],
+    isMild (rstripSl e.2) = true := by decide
+
+example :
+    locate { rootDir := [[115, 114, 118], [114, 111, 111, 116]],
+             basePath := some [47, 115, 114, 118, 47, 114, 111, 111, 116, 47],
+             filter := expandUserdirs (expanduser [([], [47, 115, 114, 118, 47, 114, 111, 111, 116, 47, 104, 111, 109, 101, 47, 109, 121, 32, 117, 115, 101, 114])])
+               [47, 115, 114, 118, 47, 114, 111, 111, 116, 47] } [] [46, 47, 126, 47, 102]
+      = .ok [[115, 114, 118], [114, 111, 111, 116], [104, 111, 109, 101], [109, 121, 32, 117, 115, 101, 114], [102]] := by
+  decide
+
+/-- a home directory that is NOT mild: the current user's home is the directory
+literally named `..%2Fevil` inside the served directory /srv/root (base path
+/srv/root/).  The VFS client path `~/f` is translated to `./~/f`, expanded to
+`..%2Fevil/f/`, kept by the chroot and decoded by the local transport to
+`../evil/f`: the file touched is /srv/evil/f -/
+theorem userdir_percent_home_witness :
+    let home : Bytes := [47, 115, 114, 118, 47, 114, 111, 111, 116, 47, 46, 46, 37, 50, 70, 101, 118, 105, 108]
+    let base : Bytes := [47, 115, 114, 118, 47, 114, 111, 111, 116, 47]
+    let cfg : Cfg := { rootDir := [[115, 114, 118], [114, 111, 111, 116]], basePath := some base,
+                       filter := expandUserdirs (expanduser [([], home)]) base }
+    isMild (rstripSl home) = false
+      ∧ vfsTranslate true [SL] [126, 47, 102] = .ok [46, 47, 126, 47, 102]
+      ∧ locate cfg [] [46, 47, 126, 47, 102] = .ok [[115, 114, 118], [101, 118, 105, 108], [102]]
+      ∧ ¬ inside cfg.rootDir [[115, 114, 118], [101, 118, 105, 108], [102]] := by
+  decide
+
 /-- the jail accepts a URL iff no jail is installed or the URL is an allowed
 base without its last character or has an allowed base as a prefix -/
 theorem jail_rejects_outside (allowed : Option (List Bytes)) (url : Bytes) :
@@ -225,6 +309,208 @@ theorem jail_segment_boundary (p url : Bytes) :
     jailAllows (some [p ++ [SL]]) url = true ↔ url = p ∨ ∃ rest, url = p ++ SL :: rest := by
   simp only [jailAllows, List.any_cons, List.any_nil, Bool.or_false]
   exact isChildUrl_iff p url
+
+
+/-! ### from the URL the jail admits to the location that is opened
+
+`_pre_open_hook` looks at `transport.base`.  For a transport built from a URL
+(`get_transport_from_url(prefix ++ p)`, the only way a request can name a
+location that is not a clone of its backing transport) `.base` has the dot
+segments resolved while operations use the path as written (`urlBase`,
+`urlBackingRel`, `urlLocate` in the model).  The link between "admitted" and
+"inside" therefore needs the URL to be in normal form (`normalisedUrl`:
+canonical escaping — no `%2F`, `%2E`, `%41`, `%%32E`, lower-case hex — and no
+".." segment; "." and empty segments are harmless), and fails without it. -/
+
+/-- the default jail root (the backing transport itself, `cloneBase [] = ""`)
+admits every URL that has its prefix -/
+theorem jail_default_allows_all (pfx x : Bytes) :
+    jailAllows (some [pfx ++ cloneBase []]) (pfx ++ x) = true := by
+  simp [jailAllows, isChildUrl, cloneBase]
+
+/-- **default jail**: every operation with a normal-form relpath through a
+transport built from a normal-form URL lands inside the served directory —
+all URL paths, all relpaths, with or without a userdir filter (any filter that
+maps canonical paths to mild ones, e.g. `_expand_userdirs` over mild homes) -/
+theorem jail_url_inside_served (cfg : Cfg) (p rel : Bytes) (loc : List Seg)
+    (hf : ∀ q, Canon q → Mild (cfg.filter q))
+    (hp : normalisedUrl p = true) (hr : normalisedUrl rel = true)
+    (h : urlLocate cfg p rel = .ok loc) : inside cfg.rootDir loc := by
+  obtain ⟨hcp, hnp⟩ := normalisedUrl_spec hp
+  obtain ⟨hcr, hnr⟩ := normalisedUrl_spec hr
+  have hcb : Canon (rawJoin p rel) := by
+    unfold rawJoin
+    split
+    · exact hcr
+    · exact canon_append (canon_withSlash hcp) hcr
+  have hnd : ∀ s ∈ splitSl (rawJoin p rel), s ≠ dotdot := fun s hs => by
+    rcases mem_splitSl_rawJoin hs with h' | h'
+    · exact hnp s h'
+    · exact hnr s h'
+  unfold urlLocate at h
+  cases ho : osRel (urlBackingRel cfg p rel) with
+  | error e => rw [ho] at h; cases h
+  | ok u =>
+    rw [ho] at h
+    cases h
+    unfold urlBackingRel at ho
+    cases hb : cfg.basePath with
+    | none =>
+      rw [hb] at ho
+      rcases osRel_locate_nodotdot (root := cfg.rootDir) (mild_of_canon hcb) hnd ho with e | ⟨_, e⟩
+      · rw [e]; exact List.prefix_append _ _
+      · rw [e]; exact List.prefix_append _ _
+    | some b =>
+      rw [hb] at ho
+      simp only [] at ho
+      exact osRel_inside tame_mild (combine_good tame_mild (stk := []) (by simp) (hf _ hcb)) ho
+
+/-- **the jail**: let the jail root be the transport cloned at the segments `J`
+(its `.base` is `pfx ++ cloneBase J`, its directory is the served directory
+followed by the decoded segments).  If `_pre_open_hook` admits the `.base` of
+the transport built from the URL `pfx ++ p`, and `p` is in normal form, then
+every operation with a normal-form relpath through that transport lands
+inside the jail root's directory.  For ALL prefixes, jail roots, URL paths and
+relpaths.  `hid`: no userdir filter, or the filter leaves this path alone
+(`_expand_userdirs` does for every path not starting with "~").  `hu`: the jail
+segments contain no escapes, or the path decodes to valid UTF-8 (otherwise
+`unescape` hands the path back undecoded, see `jail_invalid_utf8_sibling_witness`). -/
+theorem jail_allows_inside (cfg : Cfg) (pfx : Bytes) (J : List Seg) (p rel : Bytes) (loc : List Seg)
+    (hJ : ∀ s ∈ J, goodJailSeg s = true)
+    (hp : normalisedUrl p = true) (hr : normalisedUrl rel = true)
+    (hid : cfg.basePath = none ∨ cfg.filter (rawJoin p rel) = rawJoin p rel)
+    (hu : (∀ s ∈ J, pctDecode s = s) ∨ validUtf8 (pctDecode (urlBackingRel cfg p rel)) = true)
+    (ha : jailAllows (some [pfx ++ cloneBase J]) (pfx ++ urlBase p) = true)
+    (h : urlLocate cfg p rel = .ok loc) :
+    inside (cfg.rootDir ++ J.reverse.map pctDecode) loc := by
+  obtain ⟨hcp, hnp⟩ := normalisedUrl_spec hp
+  obtain ⟨hcr, hnr⟩ := normalisedUrl_spec hr
+  have hJ' : ∀ s ∈ J, JailSeg s := fun s hs => jailSeg_of_good (hJ s hs)
+  -- the jail base is a segment prefix of the kept segments of the URL path
+  have hpre : J.reverse <+: segsK p := by
+    have h1 : isChildUrl (pfx ++ cloneBase J) (pfx ++ urlBase p) = true := by
+      simpa [jailAllows] using ha
+    have h2 := jail_prefix_segs hJ' (isChildUrl_cloneBase h1)
+    rwa [segsK_snoc_sl, segsK_urlBase (mild_of_canon hcp) hnp] at h2
+  have hcb : Canon (rawJoin p rel) := by
+    unfold rawJoin
+    split
+    · exact hcr
+    · exact canon_append (canon_withSlash hcp) hcr
+  have hnd : ∀ s ∈ splitSl (rawJoin p rel), s ≠ dotdot := fun s hs => by
+    rcases mem_splitSl_rawJoin hs with h' | h'
+    · exact hnp s h'
+    · exact hnr s h'
+  -- what reaches the local transport: mild, no "..", same kept segments
+  have hbk : Mild (urlBackingRel cfg p rel) ∧ (∀ s ∈ splitSl (urlBackingRel cfg p rel), s ≠ dotdot)
+      ∧ segsK (urlBackingRel cfg p rel) = segsK p ++ segsK rel := by
+    unfold urlBackingRel
+    cases hb : cfg.basePath with
+    | none => exact ⟨mild_of_canon hcb, hnd, segsK_rawJoin p rel⟩
+    | some b =>
+      simp only []
+      have hx : cfg.filter (rawJoin p rel) = rawJoin p rel := by
+        rcases hid with e | e
+        · rw [hb] at e; cases e
+        · exact e
+      rw [hx]
+      obtain ⟨e1, e2, e3⟩ := stkPath_combine_nodotdot (mild_of_canon hcb) hnd
+      exact ⟨e2, e3, by rw [e1, segsK_rawJoin]⟩
+  obtain ⟨hm, hn, hk⟩ := hbk
+  unfold urlLocate at h
+  cases ho : osRel (urlBackingRel cfg p rel) with
+  | error e => rw [ho] at h; cases h
+  | ok u =>
+    rw [ho] at h
+    cases h
+    unfold inside
+    rcases osRel_locate_nodotdot (root := cfg.rootDir) hm hn ho with e | ⟨hv, e⟩
+    · rw [e, hk, List.map_append]
+      exact (List.prefix_append_right_inj _).mpr ((hpre.map pctDecode).trans (List.prefix_append _ _))
+    · rw [e, hk]
+      rcases hu with hd | hd
+      · have : J.reverse.map pctDecode = J.reverse := by
+          rw [List.map_congr_left (g := id) (fun s hs => hd s (List.mem_reverse.mp hs))]
+          simp
+        rw [this]
+        exact (List.prefix_append_right_inj _).mpr (hpre.trans (List.prefix_append _ _))
+      · rw [hd] at hv; cases hv
+
+/-- non-vacuity of `jail_allows_inside`: served directory /srv/root, jail root
+cloned at "a", URL path `a/x%20y/`, relpath `.bzr/branch-format`: admitted, and
+resolved to /srv/root/a/x y/.bzr/branch-format -/
+example :
+    let cfg : Cfg := { rootDir := [[115, 114, 118], [114, 111, 111, 116]], basePath := none, filter := id }
+    let pfx : Bytes := [99, 58, 47, 47, 47]
+    let p : Bytes := [97, 47, 120, 37, 50, 48, 121, 47]
+    let rel : Bytes := [46, 98, 122, 114, 47, 98, 114, 97, 110, 99, 104, 45, 102, 111, 114, 109, 97, 116]
+    (∀ s ∈ [[97]], goodJailSeg s = true) ∧ normalisedUrl p = true ∧ normalisedUrl rel = true
+      ∧ jailAllows (some [pfx ++ cloneBase [[97]]]) (pfx ++ urlBase p) = true
+      ∧ urlLocate cfg p rel = .ok [[115, 114, 118], [114, 111, 111, 116], [97], [120, 32, 121], [46, 98, 122, 114],
+          [98, 114, 97, 110, 99, 104, 45, 102, 111, 114, 109, 97, 116]] := by
+  decide
+
+/-- the same jail refuses the sibling URL `ab/` and the parent `../` is admitted only by
+the default jail -/
+example : jailAllows (some [[99, 58, 47, 47, 47] ++ cloneBase [[97]]]) ([99, 58, 47, 47, 47] ++ urlBase [97, 98, 47]) = false := by
+  decide
+
+/-- F45 family jail-url-encoded-slash-dotdot: the URL path `..%2F` (chroot only).
+`.base` is `..%2F/` — admitted by the default jail — while the operation on `.bzr`
+hands `..%2F/.bzr` to the local transport, which decodes it to `..//.bzr`:
+the location is /srv/.bzr, outside the served directory /srv/root -/
+theorem jail_unnormalised_encoded_slash_witness :
+    let cfg : Cfg := { rootDir := [[115, 114, 118], [114, 111, 111, 116]], basePath := none, filter := id }
+    let pfx : Bytes := [99, 58, 47, 47, 47]
+    let p : Bytes := [46, 46, 37, 50, 70]
+    normalisedUrl p = false
+      ∧ jailAllows (some [pfx ++ cloneBase []]) (pfx ++ urlBase p) = true
+      ∧ urlLocate cfg p [46, 98, 122, 114] = .ok [[115, 114, 118], [46, 98, 122, 114]]
+      ∧ ¬ inside cfg.rootDir [[115, 114, 118], [46, 98, 122, 114]] := by
+  decide
+
+/-- F45 family jail-url-double-encoded-dotdot: the URL path `%%32E%%32E/` with a
+userdir filter layer above the chroot: the chroot layer turns `%%32E%%32E/.bzr`
+into `%2E%2E/.bzr`, the local transport decodes that to `../.bzr` -/
+theorem jail_unnormalised_double_encoded_witness :
+    let cfg : Cfg := { rootDir := [[115, 114, 118], [114, 111, 111, 116]], basePath := some [47], filter := id }
+    let pfx : Bytes := [99, 58, 47, 47, 47]
+    let p : Bytes := [37, 37, 51, 50, 69, 37, 37, 51, 50, 69, 47]
+    normalisedUrl p = false
+      ∧ jailAllows (some [pfx ++ cloneBase []]) (pfx ++ urlBase p) = true
+      ∧ urlLocate cfg p [46, 98, 122, 114] = .ok [[115, 114, 118], [46, 98, 122, 114]]
+      ∧ ¬ inside cfg.rootDir [[115, 114, 118], [46, 98, 122, 114]] := by
+  decide
+
+/-- F45 family jail-url-dotdot-unnormalised: the URL path `../` (chroot only):
+`.base` is the root of the chroot, the operation uses `../.bzr` as written -/
+theorem jail_unnormalised_dotdot_witness :
+    let cfg : Cfg := { rootDir := [[115, 114, 118], [114, 111, 111, 116]], basePath := none, filter := id }
+    let pfx : Bytes := [99, 58, 47, 47, 47]
+    let p : Bytes := [46, 46, 47]
+    normalisedUrl p = false
+      ∧ urlBase p = []
+      ∧ jailAllows (some [pfx ++ cloneBase []]) (pfx ++ urlBase p) = true
+      ∧ urlLocate cfg p [46, 98, 122, 114] = .ok [[115, 114, 118], [46, 98, 122, 114]]
+      ∧ ¬ inside cfg.rootDir [[115, 114, 118], [46, 98, 122, 114]] := by
+  decide
+
+/-- why `hu` is needed: jail root cloned at `a%20b` (directory "a b"), URL path
+`a%20b/%FF/` in normal form and admitted; the decoded bytes are not UTF-8, so
+`unescape` hands the path back undecoded and the location is the SIBLING
+directory literally named `a%20b` — inside the served directory, outside the
+jail root's directory -/
+theorem jail_invalid_utf8_sibling_witness :
+    let cfg : Cfg := { rootDir := [[115, 114, 118], [114, 111, 111, 116]], basePath := none, filter := id }
+    let pfx : Bytes := [99, 58, 47, 47, 47]
+    let J : List Seg := [[97, 37, 50, 48, 98]]
+    let p : Bytes := [97, 37, 50, 48, 98, 47, 37, 70, 70, 47]
+    (∀ s ∈ J, goodJailSeg s = true) ∧ normalisedUrl p = true
+      ∧ jailAllows (some [pfx ++ cloneBase J]) (pfx ++ urlBase p) = true
+      ∧ urlLocate cfg p [102] = .ok [[115, 114, 118], [114, 111, 111, 116], [97, 37, 50, 48, 98], [37, 70, 70], [102]]
+      ∧ ¬ inside (cfg.rootDir ++ J.reverse.map pctDecode)
+            [[115, 114, 118], [114, 111, 111, 116], [97, 37, 50, 48, 98], [37, 70, 70], [102]] := by
+  decide
 
 example : jailAllows (some [[114, 47]]) [114, 50, 47] = false := by decide
 example : jailAllows (some [[114, 47]]) [114, 47, 120, 47] = true := by decide
